@@ -186,7 +186,9 @@ def trashAll (I : SchedI κ) : I.σ → List HandlerId → Except Err I.σ
     | none => .error (.schedTrash h)
     | some s' => trashAll I s' hs
 
-/-- one pass through the body of `while True:` in `SingleProcessMediator.run` -/
+/-- one pass through the body of `while True:` in `SingleProcessMediator.run`.  The dictionary returned by the activator is the
+list `created` in insertion order; its keys are pairwise distinct handlers (`JF.Med.LegOK.nodup`, proved for every leg of every
+run), so iterating the list is iterating the dictionary. -/
 def leg (M : MWire) (I : SchedI κ) (st : MedState I.σ) (o : Oracle κ) : Except Err (MedState I.σ × Committed κ) :=
   -- self._activator.get_event_handlers_to_run(active_global_state, self._event_handler_with_shortest_event_time)
   let r := getToRun M.w M.S st.act st.preceding o.yields
